@@ -7,11 +7,13 @@
    send / ack / result / duplicate / foreign result / rpc error / cancel / timer /
    ForceClose.  mx = Engine.maxRetries. *)
 From Coq Require Import ZArith List Bool.
-From TD Require Import Model.Rpc Proof.Rpc.
+From TD Require Import Model.Rpc Proof.Rpc Proof.RpcEnv.
 Import ListNotations.
 Open Scope Z_scope.
 
-(* Every Do returns at most once: the number of return events of call c never exceeds 1,
+(* "Exactly once" is proved as AT MOST once here (safety); that a return is always reachable is
+   proved for force-closed engines in C26_progress_after_close (an un-closed engine may wait for
+   its answer for ever). Every Do returns at most once: the number of return events of call c never exceeds 1,
    and once it has returned no further return event of c is enabled. *)
 Theorem C24_once : forall mx s c, 1 <= mx -> reach mx s ->
   nret (calls s c) <= 1 /\
@@ -34,17 +36,41 @@ Theorem C24_own_result : forall mx s c r, 1 <= mx -> reach mx s ->
 Proof. exact c24_return_value. Qed.
 Print Assumptions C24_own_result.
 
-(* Isolation and no late write, at the moment of ANY Output write event: the writing
-   delivery was looked up under the msg id of the call whose Output it writes, it writes
-   its own payload, and that call has not returned. Results for other ids, duplicates
-   and late results therefore never reach the Output (their handler is not found, is the
-   no-op, or loses the CAS). *)
-Theorem C24_isolation_no_late_write : forall mx s1 s2 d c v, 1 <= mx -> reach mx s1 ->
-  step s1 (NDecode d c true v) = Some s2 ->
-  dmid (dels s1 d) = mid (calls s1 c) /\ dpay (dels s1 d) = PRes v /\
-  is_returned (pc (calls s1 c)) = false.
+(* Isolation and no late write, at the moment of ANY call of Output.Decode by a handler --
+   successful (ok = true, writes v) or failing (ok = false, may have written part of the
+   Output): the delivery was looked up under the msg id of the call whose Output it touches,
+   it decodes its own payload, and that call has neither returned nor even passed the
+   claim-or-await point of its return path (settled_pc = false: never concurrently with the
+   return). Results for other ids, duplicates and late results therefore never reach the
+   Output (their handler is not found, is the no-op, or loses the CAS). *)
+Theorem C24_isolation_no_late_write : forall mx s1 s2 d c ok v, 1 <= mx -> reach mx s1 ->
+  step s1 (NDecode d c ok v) = Some s2 ->
+  dmid (dels s1 d) = mid (calls s1 c) /\ settled_pc (pc (calls s1 c)) = false /\
+  is_returned (pc (calls s1 c)) = false /\
+  (if ok then dpay (dels s1 d) = PRes v else dpay (dels s1 d) = PBad).
 Proof. exact c24_write. Qed.
 Print Assumptions C24_isolation_no_late_write.
+
+(* Every error class has its cause: the context error needs the caller's cancellation, both
+   close errors need ForceClose (reqCtx cancelled), the rejection needs Close. Together with
+   C24_own_result: Do returns its own result, its own rpc / decode error, a cancellation or
+   close error with that cause, or a transmission error (RSendErr, RSendCanc, RLimit: C25). *)
+Theorem C24_error_provenance : forall mx s c r, 1 <= mx -> reach mx s -> pc (calls s c) = PReturned r ->
+  (r = RCtx -> ucancel (calls s c) = true) /\
+  (r = RClosedRetryable \/ r = RClosedAcked -> fclosed s = true) /\
+  (r = RRejected -> eclosed s = true).
+Proof. exact c24_provenance. Qed.
+Print Assumptions C24_error_provenance.
+
+(* The histories covered: [reach] contains exactly the histories in which the calls that
+   entered Do have pairwise distinct msg ids -- the explicit guard of CEntered in Model/Rpc.v
+   (environment assumption C08; a second Do with an id already used, e.g. mtproto's bad-salt
+   retry or two concurrent calls sharing an id, which would share the ack channel and delete
+   each other's handler, is outside the model). *)
+Theorem C24_distinct_ids : forall mx s c c', 1 <= mx -> reach mx s ->
+  entered (calls s c) = true -> entered (calls s c') = true -> mid (calls s c) = mid (calls s c') -> c = c'.
+Proof. exact c24_distinct_ids. Qed.
+Print Assumptions C24_distinct_ids.
 
 (* The same as history variables of the final state (these are what Run/Check_C24
    evaluates on the implementation's traces). *)
